@@ -66,3 +66,18 @@ Lemma demo_clean_ok : clean demo_state demo_clean.
 Proof.
   unfold demo_clean. do 9 clean_step. apply clean_nil.
 Qed.
+
+(* the whole demo, creation calls included, is a clean history from the EMPTY heap: the
+   hypothesis of history_from_empty is satisfiable by a 27-call history *)
+Ltac in_live_tac :=
+  let z := fresh "z" in let I := fresh "I" in
+  intros z I; repeat (destruct I as [<-|I]; [live_tac|]); destruct I.
+Ltac clean_step2 :=
+  eapply clean_cons;
+  [reflexivity
+  | cbv [args_live]; first [exact I | live_tac | in_live_tac | split; [live_tac|first [live_tac|in_live_tac]]]
+  | vm_compute; reflexivity | ].
+Lemma demo_from_empty_ok : clean empty_state (demo_build ++ demo_clean).
+Proof.
+  unfold demo_build, demo_clean. cbn [app]. do 27 clean_step2. apply clean_nil.
+Qed.
